@@ -60,7 +60,8 @@ def jobs(tier, prop="ASSERT_C02"):
     J.append(op_job("remove_v6_d1", "harness_remove", 1, 1, 6, 1500, prop=prop))
     if tier == "thorough":
         J.append(op_job("add_v4_d2", "harness_add", 2, 2, 4, 3600, prop=prop, weight=3, mem=24))
-        J.append(op_job("remove_v4_d2", "harness_remove", 2, 1, 4, 3600, prop=prop, weight=3, mem=24))
+        # (remove on the symbolic-shape depth-2 template: 2.2 M SSA steps, > 4096 objects, no verdict; the depth-2 behaviour of
+        # trie_remove is covered by the fixed shapes leafL_innerR / innerL_leafR above)
         J.append(op_job("foreach_v4_d2", "harness_for_each", 2, 2, 4, 3600, prop=prop, weight=2, mem=24))
         J.append(op_job("srcremove_v4_d0e2", "harness_src_remove", 0, 2, 4, 5400, prop=prop, weight=2, mem=24))
         J.append(op_job("srcremove_v4_d1e1", "harness_src_remove", 1, 1, 4, 5400, prop=prop, weight=2, mem=24))
